@@ -37,6 +37,7 @@ from .delegates.formatter._spec_helpers import (
 )
 
 # noqa
+from .delegates.formatter._format_helpers import format_exponent
 from .delegates.formatter._to_register import register_unit_format  # noqa: F401
 
 # Backwards compatiblity stuff
@@ -59,7 +60,7 @@ def formatter(
     division_fmt: str = " / ",
     power_fmt: str = "{} ** {}",
     parentheses_fmt: str = "({0})",
-    exp_call: FORMATTER = "{:n}".format,
+    exp_call: FORMATTER = format_exponent,
     sort: bool = True,
 ) -> str:
     """Format a list of (name, exponent) pairs.
